@@ -171,7 +171,7 @@ SPEC_KEEP = [
 ]
 
 
-@rule("C02.3", ["C02", "C05", "C08", "C03"], "_can_remove_block keeps the block exactly in the four documented cases", 4)
+@rule("C02.3", ["C02", "C05", "C08", "C03", "C06"], "_can_remove_block keeps the block exactly in the four documented cases", 4)
 def c02_3(ctx: Ctx):
     fi = ctx.repo.func("_modify.remove._can_remove_block")
     pf = predicate_formula(ctx.repo, fi)
